@@ -44,10 +44,10 @@ Scn(id, filters, steps, tags) == [id |-> id, cfg |-> [filters |-> filters], step
 TokenClass == {"good", "algNone", "hmacWithPublicKey", "foreignKey", "kidMissing", "kidOfOtherKey", "payloadTampered",
                "graftedOnAccepted",     \* header and signature of a token the service accepted EARLIER, around another payload
                "sigTampered", "sigStripped", "nestedJws", "garbage", "audAbsent", "audForeign", "audNearMiss", "audForeignAzpClient",
-               "audArrayWithClient", "nonceAbsent", "nonceForeign", "nonceEmpty", "nonceNonString"}
+               "audArrayWithClient", "nonceAbsent", "nonceForeign", "nonceNearMiss", "nonceEmpty", "nonceNonString"}
 BadSig   == {"algNone", "hmacWithPublicKey", "foreignKey", "payloadTampered", "graftedOnAccepted", "sigTampered", "sigStripped", "nestedJws", "garbage"}
 BadAud   == {"audAbsent", "audForeign", "audNearMiss", "audForeignAzpClient"}   \* (azp naming the client does not make it an audience)
-BadNonce == {"nonceAbsent", "nonceForeign", "nonceEmpty", "nonceNonString"}
+BadNonce == {"nonceAbsent", "nonceForeign", "nonceNearMiss", "nonceEmpty", "nonceNonString"}
 \* what the property demands; classes in neither set may go either way (kid games with a genuinely valid signature)
 MustReject(cls, path) == cls \in BadSig \cup BadAud \/ (path = "login" /\ cls \in BadNonce)
 MustAccept(cls, path) == cls \in {"good", "audArrayWithClient"}
